@@ -3003,7 +3003,17 @@ func (e *exprCtx) flagPhi(x *ssa.Phi) (string, bool) {
 	if !ok {
 		return "", false
 	}
+	if os.Getenv("FPCHECK_DEBUG_FLAG") != "" && strings.Contains(x.Parent().String(), os.Getenv("FPCHECK_DEBUG_FLAG")) {
+		for _, a := range alts {
+			println("FLAG", x.Name(), "raw:", strings.Join(a, " & "))
+		}
+	}
 	alts = absorbAlts(alts)
+	if os.Getenv("FPCHECK_DEBUG_FLAG") != "" && strings.Contains(x.Parent().String(), os.Getenv("FPCHECK_DEBUG_FLAG")) {
+		for _, a := range alts {
+			println("FLAG", x.Name(), "abs:", strings.Join(a, " & "))
+		}
+	}
 	if len(alts) == 0 {
 		return "false", true
 	}
@@ -3045,9 +3055,7 @@ func (e *exprCtx) flagAlts(x *ssa.Phi, depth int) ([][]string, bool) {
 			anyConst = true
 		}
 	}
-	if !anyConst {
-		return nil, false
-	}
+	_ = anyConst // a bool chosen between two non-constant values is stated the same way: (conditions of the edge & the value)
 	common := map[string]bool{}
 	for _, g := range e.c.guardStrs(blk) {
 		common[g] = true
@@ -3090,7 +3098,23 @@ func (e *exprCtx) flagAlts(x *ssa.Phi, depth int) ([][]string, bool) {
 				}
 			}
 			for _, va := range vals {
-				out = append(out, uniq(append(append([]string{}, lits...), va...)))
+				alt := uniq(append(append([]string{}, lits...), va...))
+				// the value's own alternatives repeat the way to this block: combinations that assert a condition
+				// both ways are not paths
+				contra := false
+				set := map[string]bool{}
+				for _, l := range alt {
+					set[l] = true
+				}
+				for _, l := range alt {
+					if len(l) > 1 && ((l[0] == '+' && set["-"+l[1:]]) || (l[0] == '-' && set["+"+l[1:]])) {
+						contra = true
+					}
+				}
+				if contra {
+					continue
+				}
+				out = append(out, alt)
 				if len(out) > 12 {
 					return nil, false
 				}
